@@ -7,7 +7,51 @@
 /* (not packed: cbmc turns member accesses of packed structures into byte operations; the object is therefore up to
  *  7 bytes larger than requested -- memory safety of the query bytes is C36's subject) */
 struct vpd_request_obj { struct request r; u8 data[VPD_REQDATA]; };
+/* search-list entries and hosts entries carry their text behind the structure: sizeof(T) + len with a solver-chosen
+ * len.  A symbolic malloc size does not fit in memory (DESIGN 3.3), and one exactly-sized object per length makes the
+ * pointer a 20-way case split.  So they get ONE typed object with room for VPD_TEXT_MAX text bytes, the requested
+ * size is remembered, and the copy routine (the only thing that writes the text: memcpy in search_postfix_add /
+ * evdns_base_parse_hosts_line) checks every copy into such an object against the REQUESTED size. */
+#ifndef VPD_TEXT_MAX
+#define VPD_TEXT_MAX 24
+#endif
+struct vpd_sd_obj { struct search_domain d; char t[VPD_TEXT_MAX]; };
+struct vpd_he_obj { struct hosts_entry h; char t[VPD_TEXT_MAX]; };
+#define VPD_NTRACK 8
+static void *vpd_track_p[VPD_NTRACK]; static size_t vpd_track_sz[VPD_NTRACK]; static int vpd_ntrack;
+static void vpd_track(void *q, size_t sz)
+{
+	VP_ASSERT(vpd_ntrack < VPD_NTRACK, "harness: too many text-carrying allocations");
+	vpd_track_p[vpd_ntrack] = q; vpd_track_sz[vpd_ntrack] = sz; vpd_ntrack++;
+}
+static void vpd_check_write(void *d, size_t n)
+{
+#ifdef VP_CBMC
+	int i;
+	for (i = 0; i < VPD_NTRACK; i++)
+		if (i < vpd_ntrack && __CPROVER_same_object(d, vpd_track_p[i]))
+			VP_ASSERT(__CPROVER_POINTER_OFFSET(d) + n <= vpd_track_sz[i], "memcpy writes behind the size requested for a search-list / hosts entry (heap overflow)");
+#else
+	(void)d; (void)n;
+#endif
+}
 int vpd_alloc_calls;
+/* A request block that is released gets its ring links pointed at a tombstone (a static, self-linked request without
+ * nameserver and handle).  cbmc reports the first access to the released block as "deallocated dynamic object"; the
+ * tombstone only keeps a stale ring walk *after* that report concrete (it spins on the tombstone until the unwinding
+ * bound) instead of continuing through NULL / invalid pointers, which costs symex minutes. */
+static struct vpd_request_obj vpd_tomb;
+static void vpd_free(void *p)
+{
+#ifdef VP_CBMC
+	if (p != NULL && __CPROVER_OBJECT_SIZE(p) == sizeof(struct vpd_request_obj) && __CPROVER_POINTER_OFFSET(p) == 0) {
+		struct request *r = p;
+		vpd_tomb.r.next = vpd_tomb.r.prev = &vpd_tomb.r;
+		r->next = r->prev = &vpd_tomb.r;
+	}
+#endif
+	event_mm_free_(p);
+}
 static void *vpd_malloc(size_t sz)
 {
 	void *q;
@@ -22,6 +66,9 @@ static void *vpd_malloc(size_t sz)
 	else if (sz == sizeof(struct tcp_connection)) q = malloc(sizeof(struct tcp_connection));
 	else if (sz == sizeof(struct evdns_getaddrinfo_request)) q = malloc(sizeof(struct evdns_getaddrinfo_request));
 	else if (sz == sizeof(struct evdns_cache)) q = malloc(sizeof(struct evdns_cache));
+	else if (sz >= sizeof(struct search_domain) && sz <= sizeof(struct search_domain) + VPD_TEXT_MAX && sz != sizeof(struct sockaddr_in6)) {
+		q = malloc(sizeof(struct vpd_sd_obj)); __CPROVER_assume(q != NULL); vpd_track(q, sz);
+	}
 	else q = malloc(sz);
 	__CPROVER_assume(q != NULL);
 	return q;
@@ -44,6 +91,7 @@ static void *vpd_memset(void *p, int c, size_t n)
 #ifdef VP_CBMC
 static void *vpd_memcpy(void *d, const void *s, size_t n)
 {
+	vpd_check_write(d, n);
 	if (n == sizeof(struct reply)) *(struct reply *)d = *(const struct reply *)s;
 	else if (n == sizeof(struct vpd_request_obj) || n == sizeof(struct request) + VPD_REQDATA) *(struct vpd_request_obj *)d = *(const struct vpd_request_obj *)s;
 	else { size_t i; for (i = 0; i < n; i++) ((unsigned char *)d)[i] = ((const unsigned char *)s)[i]; }
@@ -63,6 +111,8 @@ static void *vpd_calloc(size_t n, size_t sz)
 		static const struct evdns_getaddrinfo_request z; q = malloc(sizeof(struct evdns_getaddrinfo_request)); __CPROVER_assume(q != NULL); *(struct evdns_getaddrinfo_request *)q = z;
 	} else if (n == 1 && sz == sizeof(struct evdns_cache)) {
 		static const struct evdns_cache z; q = malloc(sizeof(struct evdns_cache)); __CPROVER_assume(q != NULL); *(struct evdns_cache *)q = z;
+	} else if (n == 1 && sz >= sizeof(struct hosts_entry) && sz <= sizeof(struct hosts_entry) + VPD_TEXT_MAX) {
+		static const struct vpd_he_obj z; q = malloc(sizeof(struct vpd_he_obj)); __CPROVER_assume(q != NULL); *(struct vpd_he_obj *)q = z; vpd_track(q, sz);
 	} else if (n == 1 && sz == sizeof(struct request *)) {          /* req_heads, max-inflight <= 5 */
 		q = malloc(1 * sizeof(struct request *)); __CPROVER_assume(q != NULL); ((struct request **)q)[0] = NULL;
 	} else if (n == 13 && sz == sizeof(struct request *)) {         /* req_heads of evdns_base_new (max-inflight 64) */
